@@ -160,16 +160,17 @@ class Result:
         self.rc, self.out, self.err, self.timed_out, self.wall, self.rusage = rc, out, err, timed_out, wall, rusage
 
 
-SLOWCAT = ("import os,sys,time\nch,ms=int(sys.argv[1]),float(sys.argv[2])\nwhile True:\n b=os.read(0,ch)\n if not b: break\n"
-           " os.write(1,b)\n time.sleep(ms/1000.0)\n")
+SLOWCAT = ("import os,sys,time\nch,ms,ini=int(sys.argv[1]),float(sys.argv[2]),float(sys.argv[3])\ntime.sleep(ini/1000.0)\n"
+           "while True:\n b=os.read(0,ch)\n if not b: break\n os.write(1,b)\n time.sleep(ms/1000.0)\n")
 
 
 def run_proc(argv, cwd, env, timeout=60, stdin=None, stdout_path=None, tmpdir=None, stdout_fd=None, rlimit_cpu=None,
              slow_stderr=None):
     """Run a process in its own process group, stdout/stderr to files (not pipes).
     On watchdog expiry send SIGQUIT (Go dumps goroutines), then SIGKILL the group.
-    slow_stderr=(chunk bytes, pause ms): stderr goes through a pipe whose reader takes `chunk` bytes, then pauses (a terminal
-    that scrolls slowly, a remote shell): writers of stderr are throttled, nothing is lost."""
+    slow_stderr=(chunk bytes, pause ms[, initial pause ms]): stderr goes through a pipe of minimal capacity (one page) whose
+    reader waits `initial pause`, then takes `chunk` bytes at a time with pauses (a terminal that scrolls slowly, a remote
+    shell, a pager that was not looked at yet): writers of stderr are throttled, nothing is lost."""
     tmpdir = tmpdir or tempfile.gettempdir()
     of = None
     if stdout_fd is None:
@@ -185,11 +186,18 @@ def run_proc(argv, cwd, env, timeout=60, stdin=None, stdout_path=None, tmpdir=No
 
     cat = None
     if slow_stderr:
+        import fcntl
+        pr, pw = os.pipe()
+        try:
+            fcntl.fcntl(pw, fcntl.F_SETPIPE_SZ, 4096)
+        except OSError:
+            pass
         p = subprocess.Popen(argv, cwd=cwd, env=env, stdin=stdin if stdin is not None else subprocess.DEVNULL,
-                             stdout=stdout_fd if stdout_fd is not None else of, stderr=subprocess.PIPE, preexec_fn=pre)
-        cat = subprocess.Popen([sys.executable, "-c", SLOWCAT, str(slow_stderr[0]), str(slow_stderr[1])], stdin=p.stderr, stdout=ef,
-                               stderr=subprocess.DEVNULL)
-        p.stderr.close()
+                             stdout=stdout_fd if stdout_fd is not None else of, stderr=pw, preexec_fn=pre)
+        os.close(pw)
+        cat = subprocess.Popen([sys.executable, "-c", SLOWCAT, str(slow_stderr[0]), str(slow_stderr[1]),
+                                str(slow_stderr[2] if len(slow_stderr) > 2 else 0)], stdin=pr, stdout=ef, stderr=subprocess.DEVNULL)
+        os.close(pr)
     else:
         p = subprocess.Popen(argv, cwd=cwd, env=env, stdin=stdin if stdin is not None else subprocess.DEVNULL,
                              stdout=stdout_fd if stdout_fd is not None else of, stderr=ef, preexec_fn=pre)
@@ -467,10 +475,10 @@ def ambient(rng, p_trace=0.15):
     return {"GIT_TRACE": "1"} if rng.random() < p_trace else {}
 
 
-def make_plan(dirpath, rules=(), record=False):
+def make_plan(dirpath, rules=(), record=False, record_stdin=False):
     """Write a shim plan into dirpath (which also receives counters + events.jsonl)."""
     os.makedirs(dirpath, exist_ok=True)
-    plan = {"real": REAL_GIT, "dir": dirpath, "record": record, "rules": list(rules)}
+    plan = {"real": REAL_GIT, "dir": dirpath, "record": record, "rules": list(rules), "record_stdin": record_stdin}
     p = os.path.join(dirpath, "plan.json")
     with open(p, "w") as f:
         json.dump(plan, f)
